@@ -189,7 +189,7 @@ def run(ctx):
         vals = set()
         for q in _px4.Enum().paths(thir.root(ent)):
             if (q.val or "").startswith("Some"):
-                scr = [e[1] for e in q.ev if e[0] == "iflet"]
+                scr = [e[1] for e in q.ev if e[0] == "iflet" and "strip_prefix" in e[1]]
                 vals.add((q.val, scr[0] if scr else None))
         ctx.require(vals == {("Some{0: (ToOwned::to_owned(path), file_type)}", "(Path::strip_prefix(DirEntry::path(entry), ^path), await DirEntry::file_type(entry))")},
                     "R20.3", "listing-keys", "a listing maps each entry's own name (its path relative to the directory) to its file type", ent.loc(ent.line), detail=str(sorted(vals))[:300],
